@@ -2,7 +2,6 @@ package main
 
 import (
 	"fmt"
-	"sort"
 	"go/ast"
 	"go/constant"
 	"go/printer"
@@ -54,6 +53,16 @@ func (x *Exec) mergeStates(sts []*State) *State {
 	}
 	m := x.smt
 	out := sts[0].clone()
+	for i := len(sts) - 2; i >= 0; i-- {
+		_ = i
+	}
+	low := sts[len(sts)-1].allocLow
+	for i := len(sts) - 2; i >= 0; i-- {
+		if sts[i].allocLow != low {
+			low = m.def("low", SInt, Ite(sts[i].pc, sts[i].allocLow, low))
+		}
+	}
+	out.allocLow = low
 	var pcs []Term
 	for _, s := range sts {
 		pcs = append(pcs, s.pc)
@@ -238,6 +247,11 @@ func (x *Exec) enterLoop(fr *Frame, li *loopInfo, in *State) {
 			in.binds[k] = x.smt.freshLike(in.binds[k], "b."+k)
 		}
 	}
+	if mods["low"] {
+		nl := x.smt.fresh("low@l", SInt)
+		x.smt.assume("(<= " + nl + " " + in.allocLow + ")")
+		in.allocLow = nl
+	}
 	if li.iter != nil {
 		if g, ok := fr.iters[li.iter]; ok {
 			if v, ok := in.ghost[g]; ok && !mods["g:"+g] {
@@ -317,6 +331,9 @@ func (x *Exec) recordLoopMods(li *loopInfo, es *State) {
 			x.grew = true
 		}
 	}
+	if es.allocLow != li.head.allocLow {
+		add("low")
+	}
 	for name, t := range es.heap {
 		if ht, ok := li.head.heap[name]; !ok || ht != t {
 			add("h:" + name)
@@ -358,6 +375,7 @@ func (x *Exec) step(fr *Frame, st *State, ins ssa.Instruction, edgeState map[[2]
 		}
 		ref := x.newRefIn(fr, st, ins.Comment)
 		p := PtrV{Ref: ref, Elem: elem}
+		m.wellFormed(p)
 		if _, isArr := elem.Underlying().(*types.Array); !isArr {
 			x.store(st, p, m.zeroValue(elem))
 		}
@@ -497,7 +515,7 @@ func (x *Exec) step(fr *Frame, st *State, ins ssa.Instruction, edgeState map[[2]
 		x.note("channel send abstracted (concurrency)")
 	case *ssa.Go:
 		x.note("go statement: goroutine body not composed (concurrency abstracted)")
-		x.havocAll(st, "go")
+		x.goEffect(fr, st, ins)
 	case *ssa.Defer:
 		var args []Value
 		if ins.Call.IsInvoke() {
@@ -568,6 +586,7 @@ func (x *Exec) step(fr *Frame, st *State, ins ssa.Instruction, edgeState map[[2]
 			switch ins.(type) {
 			case *ssa.UnOp, *ssa.Call, *ssa.Lookup, *ssa.Extract, *ssa.Next, *ssa.TypeAssert, *ssa.Field:
 				m.wellFormed(r)
+				x.known(st, r)
 			}
 		}
 	}
@@ -581,50 +600,100 @@ func (x *Exec) newRef(hint string) Term {
 	return "(base " + id + ")"
 }
 
-// newRefIn allocates a reference that is also distinct from every reference held in a local
-// variable, binding or parameter at this point (they all predate the allocation).
-func (x *Exec) newRefIn(fr *Frame, st *State, hint string) Term {
-	r := x.newRef(hint)
-	seen := map[Term]bool{NilRef: true}
-	var ds []Term
-	add := func(v Value) {
-		if v == nil {
-			return
+// goEffect over-approximates what a started goroutine may do to the state the spawning
+// function can still observe: captured variables the goroutine assigns become arbitrary, and
+// every object held by a captured variable or passed as an argument is havoc'd. API effects
+// of the goroutine are not composed with the spawning function's ghost state.
+func (x *Exec) goEffect(fr *Frame, st *State, ins *ssa.Go) {
+	var fn *ssa.Function
+	var env []Value
+	switch v := ins.Call.Value.(type) {
+	case *ssa.MakeClosure:
+		fn, _ = v.Fn.(*ssa.Function)
+		for _, b := range v.Bindings {
+			env = append(env, x.val(fr, st, b))
 		}
-		if _, ok := v.(ArrayV); ok {
-			return
-		}
-		if pv, ok := v.(PtrV); ok && pv.Cell != nil {
-			return
-		}
-		ls := flatten(v)
-		sh := leafShapeAny(valueType(v))
-		if len(ls) != len(sh) {
-			return
-		}
-		for i, l := range sh {
-			if l.sort == SRef && !seen[ls[i]] && !strings.HasPrefix(ls[i], "(base ") {
-				seen[ls[i]] = true
-				ds = append(ds, Not(Eq(r, ls[i])))
+	case *ssa.Function:
+		fn = v
+	}
+	if fn == nil {
+		x.havocAll(st, "go")
+		return
+	}
+	assigned := map[int]bool{}
+	for _, b := range fn.Blocks {
+		for _, in := range b.Instrs {
+			if s, ok := in.(*ssa.Store); ok {
+				for i, fv := range fn.FreeVars {
+					if s.Addr == ssa.Value(fv) {
+						assigned[i] = true
+					}
+				}
 			}
 		}
 	}
-	for _, v := range st.cells {
-		add(v)
-	}
-	for _, v := range st.binds {
-		add(v)
-	}
-	for f := fr; f != nil; f = f.parent {
-		for _, v := range f.params {
-			add(v)
+	havocVal := func(v Value) {
+		switch o := v.(type) {
+		case PtrV:
+			if o.Cell == nil {
+				x.havocObject(st, canonObj(o.Ref), o.Elem)
+			}
+		case IfaceV:
+			x.havocObject(st, canonObj(o.Data), nil)
 		}
 	}
-	sort.Strings(ds)
-	if len(ds) > 0 {
-		x.smt.assume(Implies(st.pc, And(ds...)))
+	for i, b := range env {
+		p, ok := b.(PtrV)
+		if !ok || p.Cell != nil {
+			continue
+		}
+		cur := x.load(st, p)
+		x.smt.wellFormed(cur)
+		havocVal(cur)
+		if assigned[i] {
+			x.store(st, p, x.smt.freshValue(p.Elem, "go."+fn.FreeVars[i].Name()))
+		}
 	}
-	return r
+	for _, a := range ins.Call.Args {
+		havocVal(x.val(fr, st, a))
+	}
+}
+
+// newRefIn allocates a reference on the path of st: its id is below every id handed out before,
+// hence it differs from every reference that was already read, received or allocated.
+func (x *Exec) newRefIn(fr *Frame, st *State, hint string) Term {
+	x.nAlloc++
+	id := x.smt.fresh("ref."+hint, SInt)
+	x.smt.assume(And("(< "+id+" 0)", "(< "+id+" "+st.allocLow+")", Eq(App("asite", id), IntLit(int64(x.nAlloc)))))
+	st.allocLow = id
+	return "(base " + id + ")"
+}
+
+// known records that the references inside v denote objects that exist now.
+func (x *Exec) known(st *State, v Value) {
+	if v == nil {
+		return
+	}
+	if _, ok := v.(ArrayV); ok {
+		return
+	}
+	if pv, ok := v.(PtrV); ok && pv.Cell != nil {
+		return
+	}
+	ls := flatten(v)
+	sh := leafShapeAny(valueType(v))
+	if len(ls) != len(sh) {
+		return
+	}
+	var fs []Term
+	for i, l := range sh {
+		if l.sort == SRef && ls[i] != NilRef && !strings.HasPrefix(ls[i], "(base ") && !strings.HasPrefix(ls[i], "(box") {
+			fs = append(fs, "(>= (rootid "+ls[i]+") "+st.allocLow+")")
+		}
+	}
+	if len(fs) > 0 {
+		x.smt.assume(Implies(st.pc, And(fs...)))
+	}
 }
 
 func (x *Exec) boolTerm(v Value) Term {
